@@ -1286,6 +1286,9 @@ package iavl
 //@   nosafety
 //@   requires ndb != nil && ndb.db != nil && ndb.firstVersion > 0 && ndb.latestVersion > 0 && ndb.latestVersion < 9223372036854775807
 //@   loop 1 invariant prevVersion == version - 1
+//@   loop 1 invariant calls("nodeDB).GetRoot@1") == 1 && calls("nodeDB).extractStateChanges") >= 0 && (calls("nodeDB).extractStateChanges") == 0 ==> prevRoot == result("nodeDB).GetRoot@1", 0))
+//@   loop 1 invariant [previous-root-is-the-root-just-reported] calls("nodeDB).extractStateChanges") >= 1 ==> prevRoot == result("nodeDB).GetRoot@2", 0)
+//@   callsite nodeDB).GetRoot@1 [predecessor-of-the-first-version-reported] arg0 == ndb && arg1 == startVersion - 1
 //@   callsite nodeDB).extractStateChanges [consecutive] arg1 == version - 1 && arg2 == prevRoot && arg3 == root
 //@   callsite param:fn [extracted-before-reported] arg0 == version && nextracts == athead(1, nextracts) + 1
 //@   modifies *
